@@ -639,3 +639,10 @@ CORPUS += [
     V("C03", "mdcpdp-lateness-weight-sign", R + "mdcpdp/env.py", 'cost * (1 - td["lateness_weight"].squeeze())', 'cost * (1 + td["lateness_weight"].squeeze())', "C03.c"),
     V("C03", "mdcpdp-minmax-guard-inverted", R + "mdcpdp/env.py", 'if self.reward_mode == "minmax":', 'if self.reward_mode != "minmax":', "C03"),
 ]
+
+CORPUS += [
+    V("C01", "pdp-pairing-mod-instead-of-div", R + "pdp/env.py", "new_to_deliver = (current_node + num_loc // 2) % (num_loc + 1)", "new_to_deliver = (current_node + num_loc % 2) % (num_loc + 1)", "C01.m"),
+    V("C01", "pdp-pairing-wrong-modulus", R + "pdp/env.py", "new_to_deliver = (current_node + num_loc // 2) % (num_loc + 1)", "new_to_deliver = (current_node + num_loc // 2) % (num_loc - 1)", "C01.m"),
+    V("C01", "mdcpdp-pairing-minus", R + "mdcpdp/env.py", "new_to_deliver = (current_node + num_loc // 2) % (num_loc + num_depot)", "new_to_deliver = (current_node - num_loc // 2) % (num_loc + num_depot)", "C01.m"),
+    V("C01", "eq-pdp-pairing-rename", R + "pdp/env.py", "new_to_deliver", "paired", None, count=99),
+]
